@@ -48,6 +48,8 @@ O == "openapiGeneratorConfig"
 I == "openapiGeneratorConfig.info"
 S0 == "openapiGeneratorConfig.securitySchemes.0"
 S1 == "openapiGeneratorConfig.securitySchemes.1"
+S2 == "openapiGeneratorConfig.securitySchemes.2"          \* an oauth2 scheme with two flows whose scope maps differ
+FL == S2 \o ".flows"
 D == "openapiGeneratorConfig.defaultSecurity"
 
 F(path, parent, kind, go, json, base) == [path |-> path, parent |-> parent, kind |-> kind, names |-> ({go, json, path} \ {""}), base |-> base]
@@ -95,6 +97,18 @@ FieldOrder == <<
   F(S1 \o ".type", S1, "string", "Type", "", "http"),
   F(S1 \o ".scheme", S1, "string", "Scheme", "", "bearer"),
   F(S1 \o ".openIdConnectUrl", S1, "string", "OpenIdConnectUrl", "openIdConnectUrl", "#ABSENT"),
+  F(S2, O \o ".securitySchemes", "section", "SecuritySchemes", "securitySchemes", "#OBJ"),
+  F(S2 \o ".description", S2, "string", "Description", "", "scheme sec3"),
+  F(S2 \o ".name", S2, "string", "SecurityName", "", "sec3"),
+  F(S2 \o ".type", S2, "string", "Type", "", "oauth2"),
+  F(FL, S2, "section", "Flows", "flows", "#OBJ"),
+  F(FL \o ".clientCredentials", FL, "section", "ClientCredentials", "clientCredentials", "#OBJ"),
+  F(FL \o ".clientCredentials.tokenUrl", FL \o ".clientCredentials", "string", "TokenURL", "tokenUrl", "https://auth.example.com/token"),
+  F(FL \o ".clientCredentials.scopes", FL \o ".clientCredentials", "map", "Scopes", "", "#SCOPES_RWA"),
+  F(FL \o ".authorizationCode", FL, "section", "AuthorizationCode", "authorizationCode", "#OBJ"),
+  F(FL \o ".authorizationCode.authorizationUrl", FL \o ".authorizationCode", "string", "AuthorizationURL", "authorizationUrl", "https://auth.example.com/authorize"),
+  F(FL \o ".authorizationCode.tokenUrl", FL \o ".authorizationCode", "string", "TokenURL", "tokenUrl", "https://auth.example.com/token"),
+  F(FL \o ".authorizationCode.scopes", FL \o ".authorizationCode", "map", "Scopes", "", "#SCOPES_R"),
   F(D, O, "section", "DefaultRouteSecurity", "defaultSecurity", "#OBJ"),
   F(D \o ".name", D, "string", "SchemaName", "", "sec1"),
   F(D \o ".scopes", D, "strlist", "Scopes", "", "sc_read"),
@@ -114,7 +128,9 @@ RECURSIVE Live(_, _)
 Live(d, f) == LET p == Meta[f].parent IN IF p = "" THEN TRUE ELSE (d[p] \in Containers /\ Live(d, p))
 Eff(d, f) == IF Live(d, f) THEN d[f] ELSE "#ABSENT"
 Present(d, f) == Eff(d, f) \notin {"#ABSENT", "#NULL"}
-Marks == {"#ABSENT", "#NULL", "#OBJ", "#LIST", "#EMPTYLIST", "#TRUE", "#FALSE", "#NUM", "#STRX", "#ARRNUM", "#OBJX"}
+Marks == {"#ABSENT", "#NULL", "#OBJ", "#LIST", "#EMPTYLIST", "#TRUE", "#FALSE", "#NUM", "#STRX", "#ARRNUM", "#OBJX", "#SCOPES_RWA", "#SCOPES_R"}
+\* scope maps (name -> description) as data; the two flows of one scheme deliberately carry different maps
+ScopeMaps == ("#SCOPES_RWA" :> [read |-> "Read access", write |-> "Write access", admin |-> "Administrative access"]) @@ ("#SCOPES_R" :> [read |-> "Read only"])
 Str(d, f) == IF Eff(d, f) \in Marks THEN "" ELSE Eff(d, f)   \* the string value; the Go zero value when unset
 
 \* ---------------------------------------------------------------------------------------------------------------
@@ -226,6 +242,7 @@ RuleTable(d) ==
         (S1 \o ".scheme" :> (Str(d, S1 \o ".scheme") = "" \/ Str(d, S1 \o ".scheme") \in HttpSchemes)) @@            \* omitempty,oneof
         (S1 \o ".openIdConnectUrl" :> (Str(d, S1 \o ".openIdConnectUrl") = "" \/ IsUrl(Str(d, S1 \o ".openIdConnectUrl"))))  \* omitempty,url
      ELSE (S1 :> TRUE)) @@
+    (IF Present(d, S2) THEN SchemeRules(d, S2) ELSE (S2 :> TRUE)) @@
     (D \o ".name" :> (Present(d, D) => (Required(d, D \o ".name") /\ StartsWithLetter(Str(d, D \o ".name"))))) @@    \* required,starts_with_letter
     (D \o ".scopes" :> (Present(d, D) => Present(d, D \o ".scopes"))) @@                                             \* not_nil_array
     (O \o ".specGeneratorConfig" :> Present(d, O \o ".specGeneratorConfig")) @@                                      \* required
@@ -239,7 +256,7 @@ Names(d) == UNION {Meta[f].names : f \in AtFault(d)}
 
 \* cross-reference assumption (not a declared constraint, kept out of the explored space): the default security and the
 \* scheme list agree, and an apiKey / http scheme keeps the attributes OpenAPI itself demands
-DeclaredSchemes(d) == {Str(d, s \o ".name") : s \in {x \in {S0, S1} : Present(d, O \o ".securitySchemes") /\ Eff(d, O \o ".securitySchemes") = "#LIST" /\ Present(d, x)}}
+DeclaredSchemes(d) == {Str(d, s \o ".name") : s \in {x \in {S0, S1, S2} : Present(d, O \o ".securitySchemes") /\ Eff(d, O \o ".securitySchemes") = "#LIST" /\ Present(d, x)}}
 InScope(d) == IF Present(d, D) /\ ConfigValid(d) THEN Str(d, D \o ".name") \in DeclaredSchemes(d) ELSE TRUE
 
 \* ---------------------------------------------------------------------------------------------------------------
@@ -254,8 +271,14 @@ SchemeAttrs(d, s) == LET src == ("type" :> "type") @@ ("in" :> "in") @@ ("name" 
                                 ("scheme" :> "scheme") @@ ("openIdConnectUrl" :> "openIdConnectUrl")
                          has(k) == (s \o "." \o src[k]) \in Fields /\ Str(d, s \o "." \o src[k]) # ""
                      IN [k \in {x \in DOMAIN src : has(x)} |-> Str(d, s \o "." \o src[k])]
+\* oauth2 flows are copied flow by flow: its URLs and its OWN scope map
+FlowNames == {"clientCredentials", "authorizationCode"}
+FlowOf(d, fl) == StrKeys(d, FL \o "." \o fl, {k \in {"authorizationUrl", "tokenUrl", "refreshUrl"} : (FL \o "." \o fl \o "." \o k) \in Fields}) @@
+                 (IF Eff(d, FL \o "." \o fl \o ".scopes") \in DOMAIN ScopeMaps THEN ("scopes" :> ScopeMaps[Eff(d, FL \o "." \o fl \o ".scopes")]) ELSE <<>>)
+FlowsOf(d) == [fl \in {x \in FlowNames : Present(d, FL \o "." \o x)} |-> FlowOf(d, fl)]
+SchemeAttrsF(d, s) == IF s = S2 /\ Present(d, FL) THEN SchemeAttrs(d, s) @@ ("flows" :> FlowsOf(d)) ELSE SchemeAttrs(d, s)
 SchemesOf(d) == IF Present(d, O \o ".securitySchemes") /\ Eff(d, O \o ".securitySchemes") = "#LIST"
-                THEN {[key |-> Str(d, s \o ".name"), attrs |-> SchemeAttrs(d, s)] : s \in {x \in {S0, S1} : Present(d, x)}} ELSE {}
+                THEN {[key |-> Str(d, s \o ".name"), attrs |-> SchemeAttrsF(d, s)] : s \in {x \in {S0, S1, S2} : Present(d, x)}} ELSE {}
 PkgOf(d) == IF Str(d, R \o ".packageName") = "" THEN "routes" ELSE Str(d, R \o ".packageName")
 ExpectedOutputs(d) ==
     [routesPath |-> Str(d, R \o ".outputPath"), mode |-> PermMode(Str(d, R \o ".outputFilePerms")), pkg |-> PkgOf(d),
@@ -388,6 +411,7 @@ BaseIsValid == pc = "authoring" /\ doc = Base => ConfigValid(doc)
 TokOp(t) == CASE t = "#NULL" -> "null" [] t = "#OBJ" -> "emptyobj" [] t \in {"#LIST", "#EMPTYLIST"} -> "emptylist" [] t = "#ABSENT" -> "delete" [] OTHER -> "set"
 TokVal(t) == CASE t = "#NUM" -> 42 [] t = "#TRUE" -> TRUE [] t = "#FALSE" -> FALSE [] t = "#STRX" -> "x" [] t = "#ARRNUM" -> <<7>> [] t = "#OBJX" -> [x |-> 1]
                [] t \in DOMAIN GlobTokens -> GlobTokens[t].text [] t \in DOMAIN ListTokens -> ListTokens[t]
+               [] t \in DOMAIN ScopeMaps -> ScopeMaps[t]
                [] t \in {"#NULL", "#OBJ", "#LIST", "#EMPTYLIST", "#ABSENT"} -> ""
                [] OTHER -> t
 EditRec(f, t) == [path |-> f, op |-> TokOp(t), value |-> TokVal(t)]
